@@ -58,6 +58,12 @@ CHECKS = {
    note="Trusted: exactlp, exact rational null space. add_loopless part: <= 6 cycle reactions, finite bounds, zero threshold max_bound x tolerance x 10.",
    technique="runtime oracle monitor (exact cycle-removal LP, sign-pattern enumeration)",
    ref="DESIGN.md §4 C17"),
+ "C18": dict(
+   level="exploration",
+   text="Oracle monitor: after every `model.medium = d` the bounds of ALL reactions are compared with the documented rule (listed exchange: import bound = value; unlisted: import closed; export side and non-exchanges untouched) for export-written, import-written and non-unit exchanges, and the getter must return exactly the positive imports. minimal_medium: None <=> exact LP infeasible; returned imports applied as the medium on a copy reach the target (exact); total import = exact LP minimum; number of components = exact minimum by exhaustive subset enumeration (with margin against float targets on a subset's threshold); exports only negative.",
+   note="Trusted: exactlp. Exchanges on compartment 'e'; max objectives; <= 7 exchanges for component minimality.",
+   technique="runtime oracle monitor (documented-rule reference + exact LP / subset enumeration)",
+   ref="DESIGN.md §4 C18"),
  "C19": dict(
    level="exploration",
    text="Exact oracle monitor: blocked <=> exact rational FVA range [0,0] without objective requirement (exchanges opened to +-1000 when asked). find_blocked_reactions (list None/objects/ids/partial, open_exchanges, 1-2 processes) must return exactly the blocked ids; fastcc must keep exactly the unblocked reactions unchanged, leave none blocked, and not touch its input (whole-state snapshot).",
